@@ -224,6 +224,11 @@ Proof.
   destruct (g s2 x) as [b|e]; cbn [rbind]; [apply IH | reflexivity].
 Qed.
 
+Lemma enc_set_alphabet : forall (O : numops) (p : pinfo O) (a : str), pi_encoding (set_pi_alphabet p a) = pi_encoding p.
+Proof. intros O p a. destruct p. reflexivity. Qed.
+Lemma sens_set_alphabet : forall (O : numops) (p : pinfo O) (a : str), pi_save_sensitive (set_pi_alphabet p a) = pi_save_sensitive p.
+Proof. intros O p a. destruct p. reflexivity. Qed.
+
 Lemma length_eqb_0 : forall {X : Type} (l : list X), (N.of_nat (length l) =? 0)%N = is_nil l.
 Proof. intros X l. destruct l; reflexivity. Qed.
 
@@ -325,6 +330,119 @@ Proof.
   unfold pp_update, pp_view, pp_counters. cbn [pp_mw pp_results pp_base parser_of po_count_base_structures].
   clearbody m2. destruct m2 as [a b c d]. unfold mw_params_ok in Hm2. cbn [mw_threshold mw_min_len mw_max_len mw_map] in Hm2, Emap.
   destruct Hm2 as (Ha & Hb & Hc). destruct Hparams as (Pa & Pb & Pc). congruence.
+Qed.
+
+(* the trainer half of the pipeline model on the same sequence *)
+Theorem train_inst :
+  Pipeline.train E o seq =
+  if is_nil seq then None
+  else match parse_all (parse_pw E mwf) seq with
+       | Some rs => Some {| t_counters := counters_of rs; t_n := N.of_nat (length seq);
+                            t_cov := pi_coverage pi; t_sens := pi_save_sensitive pi |}
+       | None => None
+       end.
+Proof.
+  unfold Pipeline.train.
+  assert (Hseq : filter (accepted_pw E) seq = seq) by (apply (filter_accepted_out Hagree)).
+  assert (Hpre : filter (accepted_pw E) (o_multiword o) = o_multiword o).
+  { unfold o, pipe_options. cbn [o_multiword]. destruct (ostr_truthy (pi_multiword pi)); [|reflexivity].
+    destruct (pi_multiword pi) as [mnm|]; [|reflexivity]. destruct (fs_get (path_of mnm) fs) as [mtext|]; [|reflexivity].
+    apply (filter_accepted_out Hagree). }
+  rewrite Hseq, Hpre. rewrite (match_is_nil (X:=str)). fold mwf. destruct (@is_nil str seq); [reflexivity|].
+  destruct (parse_all (parse_pw E mwf) seq); reflexivity.
+Qed.
+
+(* the Markov block goes on only with the model's pseudo-count *)
+Lemma m_markov_norm : forall (cov : num OPS) (n : N) (omen c cbs : counter OPS),
+  m_markov cov n omen c = Norm cbs -> cbs = with_markov cov n c.
+Proof.
+  intros cov n omen c cbs. unfold m_markov, with_markov. destruct omen.
+  - destruct (neqb OPS cov (none OPS)); [|discriminate]. intro H. inversion H. reflexivity.
+  - intro H. inversion H. reflexivity.
+Qed.
+
+(* THE tie: the translated run_trainer on the instance is the trainer of the pipeline model, then the Markov
+   block on count_base_structures of the counters that model computes, then the three writers *)
+Theorem run_trainer_is_pipeline : forall base : path,
+  py_run_trainer PC pi base fs =
+  match Pipeline.train E o seq with
+  | None => (Ok (if is_nil seq then Some false else None), fs)
+  | Some t =>
+      match parse_all (parse_pw E mwf) seq with
+      | None => (Ok None, fs)
+      | Some rs =>
+          match @m_markov OPS (t_cov t) (t_n t) (ks_counter (to_keyspace (pipe_objs rs)))
+                         (of_counts (sc_base (pc_structs (t_counters t)))) with
+          | Exc e => (Raise e, fs)
+          | Retn b => (Ok (Some b), fs)
+          | Norm cbs =>
+              save_all PC (to_pinfo (pipe_objs rs)) base (to_reader (pipe_objs rs)) (to_omen (pipe_objs rs))
+                       (to_keyspace (pipe_objs rs)) (to_levels (pipe_objs rs)) (t_n t)
+                       {| pp_mw := pp_mw (to_parser (pipe_objs rs)); pp_results := rs; pp_base := Some cbs |} fs
+          end
+      end
+  end.
+Proof.
+  intro base. rewrite py_run_trainer_is_model. unfold m_run_trainer. rewrite passes_inst, train_inst.
+  destruct (is_nil seq); [reflexivity|].
+  destruct (parse_all (parse_pw E mwf) seq) as [rs|]; [|reflexivity].
+  unfold finish. cbn [t_cov t_n t_counters].
+  reflexivity.
+Qed.
+
+(* ---------------------------------------------------------------- what is on disk after a successful run *)
+
+Lemma some_case : forall {X Y : Type} (ox : option X) (f : X -> Y) (d y : Y), d <> y ->
+  match ox with Some x => f x | None => d end = y -> exists x, ox = Some x /\ f x = y.
+Proof. intros X Y ox f d y Hd H. destruct ox as [x|]; [exists x; split; [reflexivity | exact H] | contradiction]. Qed.
+
+Hypothesis calc_eq : forall c : counter OPS, calc c = calc_probs c.      (* C06_source_calculate_probabilities_is_model *)
+Hypothesis Hwf : fs_wf fs.
+Hypothesis Hcfg_wf : forall b p f po w, fs_wf w -> fs_wf (snd (save_config b p f po w)).
+Hypothesis Homen_wf : forall ot ks lc n b p w, fs_wf w -> fs_wf (snd (save_omen ot ks lc n b p w)).
+
+(* when the translated run_trainer returns True, the pipeline's trainer succeeded on the reader's sequence and
+   the ruleset folders on disk are exactly the files of Pipeline.save of what it trained, installed by the
+   translated save_pcfg_data over the disk the config / OMEN writers left *)
+Theorem run_trainer_writes_pipeline_ruleset : forall (base : path) (fs' : fsys),
+  py_run_trainer PC pi base fs = (Ok (Some true), fs') ->
+  exists (t : trained A) (fs2 : fsys) (enc : str),
+    Pipeline.train E o seq = Some t /\
+    t_n t = N.of_nat (length seq) /\ t_cov t = pi_coverage pi /\ t_sens t = pi_save_sensitive pi /\
+    pi_encoding pi = Some enc /\
+    ruleset_encodable repr encb enc (s_files (Pipeline.save R t)) = true /\
+    fs_wf fs2 /\
+    fs' = install_all repr base (s_files (Pipeline.save R t)) fs2.
+Proof.
+  intros base fs' H. rewrite run_trainer_is_pipeline in H. rewrite train_inst in H.
+  destruct (@is_nil str seq) eqn:Enil; [discriminate H|].
+  destruct (parse_all (parse_pw E mwf) seq) as [rs|] eqn:Eparse; [|discriminate H].
+  cbn [t_cov t_n t_counters] in H.
+  match type of H with context [m_markov ?c ?n ?om ?cs] => destruct (m_markov c n om cs) as [cbs|b|e] eqn:Em end;
+    [| | discriminate H].
+  2: { unfold m_markov in Em. destruct (ks_counter _); [|discriminate Em]. destruct (neqb OPS _ _); [discriminate Em|].
+       inversion Em; subst b. discriminate H. }
+  apply m_markov_norm in Em.
+  apply save_all_true in H. destruct H as (w1 & w2 & S1 & S2 & S3).
+  cbn [c_save_config_file c_save_omen_rules_to_disk c_save_pcfg_data pipe_collab] in S1, S2, S3.
+  destruct (save_config base _ _ _ fs) as [b1 w1'] eqn:E1. inversion S1; subst b1 w1'. clear S1.
+  match type of S2 with context [save_omen ?a ?b ?c ?d ?e ?f ?g] => destruct (save_omen a b c d e f g) as [b2 w2'] eqn:E2 end.
+  inversion S2; subst b2 w2'. clear S2.
+  assert (W1 : fs_wf w1). { match type of E1 with save_config ?b ?p ?f ?po ?w = _ => generalize (Hcfg_wf b p f po w Hwf) end. rewrite E1. exact (fun x => x). }
+  assert (W2 : fs_wf w2). { match type of E2 with save_omen ?a ?b ?c ?d ?e ?f ?g = _ => generalize (Homen_wf a b c d e f g W1) end. rewrite E2. exact (fun x => x). }
+  unfold pipe_objs in S3. cbn [to_pinfo pi_encoding pi_save_sensitive] in S3.
+  rewrite enc_set_alphabet, sens_set_alphabet in S3.
+  apply some_case in S3; [|discriminate]. destruct S3 as (enc & Ee & S3).
+  set (t := {| t_counters := counters_of rs; t_n := N.of_nat (length seq); t_cov := pi_coverage pi; t_sens := pi_save_sensitive pi |}).
+  exists t, w2, enc. split; [rewrite train_inst, Enil, Eparse; reflexivity|]. do 3 (split; [reflexivity|]). split; [exact Ee|].
+  unfold Pipeline.save. cbn [s_files t_counters t_sens t_cov t_n t].
+  unfold pp_view, pp_counters in S3. cbn [pp_results pp_base] in S3. rewrite Em in S3.
+  destruct (ruleset_encodable repr encb enc (save_pcfg_data OPS (counters_of rs) (pi_save_sensitive pi) (pi_coverage pi) (N.of_nat (length seq)))) eqn:Er.
+  - split; [reflexivity|]. split; [exact W2|].
+    rewrite (save_pcfg_data_eq repr encb calc calc_eq base (counters_of rs) (pi_save_sensitive pi) (pi_coverage pi) (N.of_nat (length seq)) enc w2 W2 Er) in S3.
+    inversion S3. reflexivity.
+  - destruct (save_pcfg_data_fails repr encb calc calc_eq base (counters_of rs) (pi_save_sensitive pi) (pi_coverage pi) (N.of_nat (length seq)) enc w2 W2 Er) as (fx & Hx).
+    rewrite Hx in S3. discriminate S3.
 Qed.
 
 End Run.
